@@ -478,6 +478,21 @@ def shard(ctx, arg):
                         "features": m.features, "libraries": m.libraries, "manifest_axml_hex": data.hex()[:1500]})
 
 
+def replay(ctx, path):
+    """re-run the cases named in a replay file (cases are pure functions of (seed, case index))"""
+    import json
+    with open(path) as f:
+        j = json.load(f)
+    ctx.seed = j.get("seed", ctx.seed)
+    ctx.rule = "replay of %s" % path
+    for w in j["witnesses"]:
+        if isinstance(w.get("case"), int):
+            one_case(ctx, w["case"])
+            ctx.sig("replay", w["case"])
+            ctx.sample({"replayed_case": w["case"]})
+    ctx.min_distinct = 1
+
+
 def run(ctx):
     ctx.rule = ("random manifest models (package, versionCode/Name typed or string, uses-sdk present/absent/partial/codename, 0..8 uses-permission with maxSdkVersion and "
                 "duplicates, declared permissions, uses-feature with/without name, uses-library, 0..6 activities / services / receivers / providers with full, "
@@ -489,7 +504,7 @@ def run(ctx):
                        "MAIN and LAUNCHER are generated in the same intent-filter or not both on one component",
                        "numbers compared by value; codename SDK versions: only the attribute string is compared",
                        "trusted base: vf.model.axmlw (self-checked), python zipfile"]
-    n = 1600 if ctx.quick else 160000
+    n = 1600 if ctx.quick else 96000
     per = n // 16
     ctx.run_shards(MOD, "shard", [[k * per, (k + 1) * per] for k in range(16)], timeout=1500)
     ctx.require_counter("APK", 500)
